@@ -310,6 +310,79 @@ func (c *Ctx) growRules() {
 		}
 	}
 	c.R.Check(len(bad) == 0, ruleT5, "grow:reindexes-all-live-entries", c.P.InstrPos(mu), "for i in [0, tail): emap[ring[i].Pktid] = i after head=0, tail=count", joinStr(bad, "; "))
+	c.growUnrollOrder(fn)
+}
+
+// growUnrollOrder: the old ring is unrolled oldest-first: the segment that starts
+// at head lands at offset 0 of the new ring, the segment that starts at slot 0
+// behind it. Only the slice-copy form is recognised; another form is undecided.
+func (c *Ctx) growUnrollOrder(fn *ssa.Function) {
+	type cp struct {
+		call            *ssa.Call
+		srcLow, srcHigh ssa.Value
+		dstLow          ssa.Value
+	}
+	var cps []cp
+	for _, b := range fn.Blocks {
+		for _, in := range b.Instrs {
+			call, ok := in.(*ssa.Call)
+			if !ok {
+				continue
+			}
+			bi, ok := call.Common().Value.(*ssa.Builtin)
+			if !ok || bi.Name() != "copy" {
+				continue
+			}
+			x := cp{call: call}
+			dst, src := call.Common().Args[0], call.Common().Args[1]
+			if sl, ok := src.(*ssa.Slice); ok {
+				p := ir.PathOf(sl.X)
+				if len(p.Fields) == 0 || p.Fields[len(p.Fields)-1] != "ring" {
+					continue
+				}
+				x.srcLow, x.srcHigh = sl.Low, sl.High
+			} else {
+				continue
+			}
+			if sl, ok := dst.(*ssa.Slice); ok {
+				x.dstLow = sl.Low
+			}
+			cps = append(cps, x)
+		}
+	}
+	if len(cps) == 0 {
+		c.R.Unknown(ruleT5, "grow:unrolls-oldest-first", c.P.Pos(fn.Pos()), "grow does not copy the old ring with copy(dst, ring[a:b]) - the unroll form is not recognised by this rule")
+		return
+	}
+	isZero := func(v ssa.Value) bool {
+		if v == nil {
+			return true
+		}
+		k, ok := v.(*ssa.Const)
+		return ok && k.Value != nil && k.Value.ExactString() == "0"
+	}
+	var bad []string
+	for _, x := range cps {
+		switch {
+		case x.srcLow != nil && isFieldLoad(x.srcLow, "head"):
+			// the oldest segment: must land at offset 0
+			if !isZero(x.dstLow) {
+				bad = append(bad, "the segment starting at head (the oldest entries) is not copied to the start of the new ring at "+c.P.InstrPos(x.call))
+			}
+		case isZero(x.srcLow) && x.srcHigh != nil && isFieldLoad(x.srcHigh, "tail"):
+			// the wrapped (newest) segment: must land behind the oldest one, at size-head
+			okOff := false
+			if bo, ok := x.dstLow.(*ssa.BinOp); ok && bo.Op.String() == "-" && isFieldLoad(bo.X, "size") && isFieldLoad(bo.Y, "head") {
+				okOff = true
+			}
+			if !okOff {
+				bad = append(bad, "the wrapped segment ring[:tail] (the newest entries) is not copied behind the oldest segment (offset size-head) at "+c.P.InstrPos(x.call))
+			}
+		default:
+			bad = append(bad, "unrecognised copy of the old ring at "+c.P.InstrPos(x.call))
+		}
+	}
+	c.R.Check(len(bad) == 0, ruleT5, "grow:unrolls-oldest-first", c.P.Pos(fn.Pos()), fmt.Sprintf("%d copies: ring[head:...] to offset 0, ring[:tail] to offset size-head", len(cps)), joinStr(bad, "; ")+": after growing a wrapped queue, entries are released (and QoS 2 messages handed on) out of order")
 }
 
 // queueMethodsLocked: every exported method of Ackqueue holds the queue mutex
